@@ -106,6 +106,31 @@ def run(ctx):
                 break
         ctx.case((name, "inner", k))
         traces.append(hist.t)
+    # option combinations that the constructor and fit accept and that a later call refuses (or accepts): whatever the
+    # call does, it reports the same hyper-parameters afterwards
+    import mlinsights.mlmodel as M
+    combos = [("ConstraintKMeans[weights,balanced]", lambda k: M.ConstraintKMeans(n_clusters=2 + k, strategy="weights", balanced_predictions=True,
+                                                                                  max_iter=5, random_state=k, n_init=1), classes.data_clu,
+               ["predict", "transform", "score"]),
+              ("ConstraintKMeans[gain,balanced]", lambda k: M.ConstraintKMeans(n_clusters=2 + k, strategy="gain", balanced_predictions=True,
+                                                                               max_iter=5, random_state=k, n_init=1), classes.data_clu,
+               ["predict", "transform", "score"])]
+    for name, mk, data, methods in combos:
+        for k in (0, 1):
+            tid += 1
+            hist = lifecycle.History(tid, "C02 " + name, "option combination decided at call time")
+            a = mk(k)
+            hist.new(a)
+            X, y = data(rng)
+            fake = type("E", (), dict(fit_kw={}, seed="global"))()
+            ok, _ = lifecycle.do_fit(hist, a, X, y, fake, 7, "D1", expect_ok=False)
+            if ok:
+                for m in methods:
+                    for rep in range(2):
+                        P = copy.deepcopy(X)
+                        hist.call(a, m, lambda m=m, P=P: getattr(a, m)(P), [P], expect_ok=False)
+            ctx.case((name, k))
+            traces.append(hist.t)
     lifecycle.validate(ctx, traces)
     ctx.exhaustive = False
     ctx.rule = ("Per class with a working fit: 1-3 consecutive failing fits per kind of invalid input (short y, wrong weight length, "
